@@ -8,12 +8,14 @@ def main(tier):
     rep = Report('C14', tier)
     ids = [c for c in V.vac_ids(tier) if c not in ('P-4(S4 site)',)] if tier == 'quick' else V.vac_ids(tier)
     runner.run(rep, 'VacancyMediated::C14-contract', V.w_history, [(cid, tier, SEED, 'C14') for cid in ids], 'onsager/OnsagerCalc.py::VacancyMediated')
+    from contracts import fresh_c
+    fresh_c.run(rep)      # ownership contracts (level P): what Lij returns / memoises / modifies, for every call history
     from vf import extract
     for rel, q in [('onsager/OnsagerCalc.py', 'VacancyMediated.Lij'), ('onsager/OnsagerCalc.py', 'VacancyMediated.clearcache'), ('onsager/OnsagerCalc.py', 'VacancyMediated.generate'), ('onsager/OnsagerCalc.py', 'VacancyMediated.GFcalculator'), ('onsager/GFcalc.py', 'GFCrystalcalc.SetRates'), ('onsager/GFcalc.py', 'GFCrystalcalc.Diffusivity'), ('onsager/GFcalc.py', 'GFCrystalcalc.biascorrection')]:
         try:
             f = extract.get(rel, q); rep.under_contract(rel + '::' + q, rel, f.l0, f.l1)
         except KeyError: pass
-    rep.gaps += ['the planned frame/alias proof (E2: values stored in the caches are never reachable by a caller) is not built: this is the bounded stand-in', 'catalogue calculators, histories of 14 (quick) / 60 (thorough) steps']
+    rep.gaps += ['level P covers the ownership side (returned arrays are fresh, memoised arrays are private or never handed out, no shared array is modified in place, the Green-function calculator re-binds D and eta); that a cache hit is only taken for an identical key, and that generate() / GFcalculator() clear the caches, is level B only', 'catalogue calculators, histories of 14 (quick) / 60 (thorough) steps']
     extra(rep, tier)
     return finish(rep, 'exploration', 'Seeded histories on real calculators over a pool of inputs (incl. two inputs sharing the Green-function cache key), interleaving calls, in-place edits of returned arrays, cache clears, range regeneration (generate; generatematrices) and save/reload; every result is compared with a fresh calculator (1e-11 relative); plus the A,B,A and miss-hit-edit-hit sequences.', './check C14 --tier ' + tier)
 
